@@ -79,7 +79,7 @@ func H_C09_Merge() {
 	pa.Incarnation = vU32()
 	pa.PMin, pa.PMax, pa.PCur = 1, 5, vU8()
 	join := vBool()
-	n := 1 + vTier()
+	n := 1 + vPick(1+vTier())
 	remote := make([]pushNodeState, 0, n)
 	for i := 0; i < n; i++ {
 		remote = append(remote, vArbEntry([]string{vPeerA, vPeerB, vSelf}))
